@@ -36,7 +36,7 @@ def check(ctx, run):
     run.rule("R1", "size classes: class sizes ascending, isCached bound = largest class, getIndexForCache folded for every size 0..300 = smallest class >= size; alloc/dealloc/hasFreeBlocksOfSize classify through it; new blocks are allocated with the class size", floor=300, exhaustive=True)
     run.rule("R2", "moves folded on every used list of 0..3 blocks x every target: reserve = pop free + push used; release = unlink exactly the addressed block from used + push free; unknown pointer = lists untouched + the one-shot warning", floor=15, exhaustive=True)
     run.rule("R3", "clears folded: clearCache destroys every class's free list with the class size and resets every head; clearAll also destroys used lists and non-cached blocks; destroying a list frees every block once (memory and header), reading next before freeing", floor=6)
-    run.rule("R4", "adaptor and teardown: the allocator adaptor forwards (size) / (memory, size); alloc/dealloc skeletons; the global cache restores the string allocator and returns everything (also buffers still in use) before it goes away", floor=8)
+    run.rule("R4", "adaptor and teardown: the allocator adaptor forwards (size) / (memory, size); alloc/dealloc skeletons; the global cache restores the string allocator and returns everything (also buffers still in use) before it goes away", floor=6)
 
     # ---------------- R1 ----------------------------------------------------
     cr = prog.fn(CA + "::createInternalCacheNodes")
@@ -278,34 +278,45 @@ def check(ctx, run):
     de = prog.fn(CA + "::dealloc")
     run.analysed(al)
     run.analysed(de)
-    sz = al.params[0]["name"]
-    for p in enumerate_paths(al):
-        v = p.val()
-        cached = v.get("isCached(%s)" % sz)
-        r = render(al, al.node(p.ret.get("value"))) if p.ret is not None else None
-        if cached is True:
-            hfv = v.get("hasFreeBlocksOfSize(%s)" % sz)
-            want = ("reserveCachedBlockFrom(getCacheNodeFromSize(%s))->memory_" if hfv else "allocateNewCacheBlockFrom(getCacheNodeFromSize(%s))->memory_") % sz
-            ok = hfv is not None and r == want
-        elif cached is False:
-            a = [(l, render(al, r_)) for l, r_, n in assignments(al, p) if l == "nonCachedAllocations_"]
-            ok = a == [("nonCachedAllocations_", "createSimpleStringMemoryBlock(%s, nonCachedAllocations_)" % sz)] and r == "nonCachedAllocations_->memory_"
-        else:
-            ok = False
-        run.ob("R4", "alloc [%s]" % p.describe(al), al.site, ok, witness=r)
-    m_, s2 = de.params[0]["name"], de.params[1]["name"]
-    for p in enumerate_paths(de):
-        v = p.val()
-        cached = v.get("isCached(%s)" % s2)
-        names = [render(de, c) for c in path_calls(prog, de, p)]
-        if cached is True:
-            ini = {k: render(de, x) for k, x in local_inits(de).items()}
-            ok = ini.get("index") == "getIndexForCache(%s)" % s2 and ini.get("cacheNode") == "&cache_[index]" and "releaseCachedBlockFrom(%s, cacheNode)" % m_ in names and not any("releaseNonCachedMemory" in n for n in names)
-        elif cached is False:
-            ok = "releaseNonCachedMemory(%s, %s)" % (m_, s2) in names and not any("releaseCachedBlockFrom" in n for n in names)
-        else:
-            ok = False
-        run.ob("R4", "dealloc [%s] releases into the class of the given size" % p.describe(de), de.site, ok, witness=names)
+    def fold_cache_entry(f, vals, own_free):
+        log = []
+        env = dict(penv)
+        env.update(dict(zip([q["name"] for q in f.params], vals)))
+        env["nonCachedAllocations_"] = 7000
+        size = vals[-1] if f is de else vals[0]
+        wanti = next((i for i, s_ in enumerate(sizes) if size <= s_), None)
+        for i in range(ncls):
+            env["CACHE[%d].freeMemoryHead_" % i] = (4242 if own_free else 0) if i == wanti else (0 if own_free else 4242)
+        env.update({"@8000.memory_": 18000, "@8100.memory_": 18100, "@8200.memory_": 18200})
+        hooks = {CA + "::reserveCachedBlockFrom": lambda *a_: (log.append(("reserve", a_[-1])), 8000)[1], CA + "::allocateNewCacheBlockFrom": lambda *a_: (log.append(("new", a_[-1])), 8100)[1],
+                 CA + "::createSimpleStringMemoryBlock": lambda *a_: (log.append(("create", a_[-2], a_[-1])), 8200)[1],
+                 CA + "::releaseCachedBlockFrom": lambda *a_: (log.append(("release", a_[-2], a_[-1])), 0)[1], CA + "::releaseNonCachedMemory": lambda *a_: (log.append(("release-large", a_[-2], a_[-1])), 0)[1]}
+        ev = Evaluator(prog, f, env=env, calls=hooks)
+        ev.heap_mode = True
+        ev.inline = CINL | {CA + "::hasFreeBlocksOfSize"}
+        ev.run_blocks(f.entry, max_steps=800)
+        return getattr(ev, "ret", None), log, ev.env.get("nonCachedAllocations_"), wanti
+    bad_a, bad_d = None, None
+    try:
+        for size in probe + [sizes[-1] + 1, 1000]:
+            for own_free in (0, 1):
+                r, log, nc, wanti = fold_cache_entry(al, (size,), own_free)
+                if wanti is not None:
+                    want = ([("reserve", ("ptr", "CACHE", wanti))], 18000) if own_free else ([("new", ("ptr", "CACHE", wanti))], 18100)
+                    okc = (log, r) == want and nc == 7000
+                else:
+                    okc = log == [("create", size, 7000)] and nc == 8200 and r == 18200
+                if not okc and bad_a is None:
+                    bad_a = "alloc(%d) with its class %s: does %s and returns %s" % (size, "non-empty" if own_free else "empty", log, r)
+            r, log, nc, wanti = fold_cache_entry(de, (55555, size), 0)
+            want = [("release", 55555, ("ptr", "CACHE", wanti))] if wanti is not None else [("release-large", 55555, size)]
+            if log != want and bad_d is None:
+                bad_d = "dealloc(memory, %d) does %s, expected %s" % (size, log, want)
+    except Unknown as u:
+        run.broke("C18.R4: alloc/dealloc cannot be folded: %s" % u)
+    run.ob("R4", "alloc folded at every class boundary and above the largest class: reserve from the own class when it has free blocks, else a new block of that class; large sizes get a block of exactly that size pushed on the non-cached list",
+           al.site, bad_a is None, witness=bad_a or "ok", what=bad_a or "")
+    run.ob("R4", "dealloc folded: releases into the class of the given size, large sizes through the non-cached list", de.site, bad_d is None, witness=bad_d or "ok", what=bad_d or "")
     A = "SimpleStringCacheAllocator"
     f = prog.fn(A + "::alloc_memory")
     rets = [render(f, f.node(n.get("value"))) for n in f.walk() if n["k"] == "ReturnStmt"]
